@@ -217,6 +217,26 @@ pub fn run(tier: Tier) -> i32 {
             }
         }
     }
+    // ---- thorough: every -E value 1..=255 x {clean, one error, muted error, fatal framing error}
+    if tier.is_thorough() {
+        let mut pk = clean.packets.clone();
+        pk[1].1.packet.rdh.rdh3_reserved = 0x0101;
+        let one: Vec<u8> = pk.iter().flat_map(|(_, p)| p.packet.bytes()).collect();
+        let (walked, _) = stream::walk(&clean_bytes);
+        let mut fatal = clean_bytes.clone();
+        fatal[walked[2].offset as usize + 8] = 16;
+        fatal[walked[2].offset as usize + 9] = 0;
+        for n in 1..=255u32 {
+            let e = n.to_string();
+            cases.push(Case { label: format!("every -E: clean -E {n}"), input: Input::Bytes(clean_bytes.clone()), args: s(&["check", "all", "its", "-E", &e]), exit: Exit::Code(0), total: None, shown: Some(Shown::Exactly(0)), must_not_exist: vec![] });
+            cases.push(Case { label: format!("every -E: one error -E {n}"), input: Input::Bytes(one.clone()), args: s(&["check", "sanity", "-E", &e]), exit: Exit::Code(n as i32), total: None, shown: Some(Shown::Exactly(1)), must_not_exist: vec![] });
+            cases.push(Case { label: format!("every -E: one muted error -E {n}"), input: Input::Bytes(one.clone()), args: s(&["check", "sanity", "-m", "-E", &e]), exit: Exit::Code(n as i32), total: None, shown: Some(Shown::Exactly(0)), must_not_exist: vec![] });
+            cases.push(Case { label: format!("every -E: fatal framing error -E {n}"), input: Input::Bytes(fatal.clone()), args: s(&["check", "all", "its", "-E", &e]), exit: Exit::Code(n as i32), total: None, shown: None, must_not_exist: vec![] });
+        }
+        for bad in ["0", "256", "-1", "1000"] {
+            cases.push(Case { label: format!("invalid: -E {bad}"), input: Input::Bytes(clean_bytes.clone()), args: s(&["check", "all", "-E", bad, "-S", "st.json", "-D", "json"]), exit: Exit::NonZero, total: None, shown: Some(Shown::Exactly(0)), must_not_exist: vec!["st.json"] });
+        }
+    }
     // ---- mixed codes incl. codes that are prefixes of other codes: E44 / E444 / E445 / E40 / E41
     {
         let mut names = vec!["tdh.trigger type != RDH trigger on page 0", "tdh.orbit != RDH orbit", "tdh.bc != RDH bc on page 0", "tdh.reserved bit 15", "tdh.continuation clear on continuation page", "rdh.bc=0xdec", "running.page counter +4"];
@@ -390,7 +410,7 @@ pub fn run(tier: Tier) -> i32 {
     rep.cov("code_pairs", json!(pairs));
     rep.cov("distinct_nontrivial", json!(cases.iter().filter(|c| c.exit != Exit::Code(0)).count()));
     rep.cov("exhaustive", json!(true));
-    rep.cov("rule", json!("contract table over: clean x 5 -E values x 3 modes; 1/2/21 errors x 5 -E values x 7 display options; a stream with mixed codes (E10, E11, E40, E41, E44, E444, E445, ...) x code lists incl. prefixes; a fatal framing error at every packet index x 3 -E values; 5 unreadable / unrecognisable inputs x 3 modes; 10 invalid option combinations (must not write st.json / out.raw); all ordered pairs of 43 codes through the display filter. non-trivial = the contract demands a non-zero exit"));
+    rep.cov("rule", json!("contract table over: clean x 5 -E values x 3 modes; 1/2/21 errors x 5 -E values x 7 display options; a stream with mixed codes (E10, E11, E40, E41, E44, E444, E445, ...) x code lists incl. prefixes; a fatal framing error at every packet index x 3 -E values; 5 unreadable / unrecognisable inputs x 3 modes; 10 invalid option combinations (must not write st.json / out.raw); all ordered pairs of 43 codes through the display filter; thorough: every -E value 1..=255 x {clean, one error, one muted error, fatal framing error} and -E 0 / 256 / -1 / 1000 rejected. non-trivial = the contract demands a non-zero exit"));
     rep.sample(json!({"case": cases[cases.len() / 2].label, "args": cases[cases.len() / 2].args}));
     rep.assume("with an error cap the run stops early: only 'at most N shown' and the exit status are judged, not the totals");
     rep.finish()
